@@ -226,3 +226,24 @@ fn deserialize_non_string_is_err() {
     assert!(LanguageIdentifier::deserialize(KindDe(kinds[k])).is_err());
 }
 
+
+/// C20 / C02 (built with every optional feature): FromStr is from_bytes on the very same bytes (same verdict, same value)
+#[kani::proof]
+#[kani::unwind(10)]
+#[kani::stub(crate::parser::parse_language_identifier_from_iter, parser_oracle)]
+fn from_str_is_from_bytes() {
+    let buf: [u8; 4] = kani::any();
+    let n: usize = kani::any();
+    kani::assume(n <= 4);
+    let mut i = 0;
+    while i < 4 { kani::assume(buf[i] < 0x80); i += 1; }
+    let s = unsafe { std::str::from_utf8_unchecked(&buf[..n]) };
+    let want = LanguageIdentifier::from_bytes(s.as_bytes());
+    let got: Result<LanguageIdentifier, _> = s.parse();
+    match (&want, &got) {
+        (Ok(a), Ok(b)) => assert!(raw(a) == raw(b)),
+        (Err(_), Err(_)) => {}
+        _ => assert!(false),
+    }
+    kani::cover!(got.is_ok());
+}
